@@ -24,7 +24,7 @@ CLAIMS = {
         "arithmetic of core/src/core/pmmr/pmmr.rs, whose function bodies are re-extracted verbatim from "
         "/repo on every run, agrees with an explicitly defined postorder tree (height, subtree ranges, leaf "
         "counts, leaf index <-> position, parent/sibling); and that PMMR::push -- appending to the MMR -- writes the new leaf and then, for exactly as long as the current node is a right child in that tree, its parent at exactly the parent "
-        "position as node_hash(stored hash of exactly the tree-sibling, current hash, parent position), stopping at the new peak (sizes < 2^61). Merkle-proof soundness is covered by a bounded "
+        "position as node_hash(stored hash of exactly the tree-sibling, current hash, parent position), stopping at the new peak (sizes < 2^61); ReadablePMMR::root is the right-to-left bagging of the peaks, H(p0, H(p1, ...)) indexed by the MMR size, and ZERO_HASH for the empty MMR. Merkle-proof soundness is covered by a bounded "
         "Kani stand-in only and is labelled bounded in the evidence.",
         "Trusted: vstd arithmetic/bit lemmas and the leading_zeros/count_ones axioms; blake2b is outside "
         "(ideal-hash assumption for the bounded Merkle unit). PMMR::validate and rewindable_pmmr not covered.",
